@@ -252,10 +252,10 @@ func build(msgs []msgSpec, enc int) *built {
 	return b
 }
 
-// positions is the boundary-focused cut position set of a long stream: every offset within 2 of the start of
+// positions is the boundary-focused cut position set of a long stream: every offset within radius of the start of
 // a length prefix, of the end of a length prefix and of the end of a message, plus every multiple of the
 // default HTTP/2 max frame size.
-func (b *built) positions() []int {
+func (b *built) positions(radius int) []int {
 	L := len(b.stream)
 	set := map[int]bool{}
 	add := func(p int) {
@@ -264,7 +264,7 @@ func (b *built) positions() []int {
 		}
 	}
 	for i := range b.starts {
-		for d := -2; d <= 2; d++ {
+		for d := -radius; d <= radius; d++ {
 			add(b.starts[i] + d)
 			add(b.starts[i] + 5 + d)
 			add(b.ends[i] + d)
@@ -924,6 +924,8 @@ func (it *item) classify(cuts []int) {
 	}
 }
 
+var quickTier = lib.Tier() != "thorough"
+
 var countOnly = os.Getenv("C11_COUNT") != "" // development aid: enumerate the space without executing it
 
 func (it *item) one(cuts []int) {
@@ -984,7 +986,11 @@ func (it *item) run(maxExhaustive, maxMsgs int, deadline time.Time, timedOut *in
 	case L <= maxExhaustive:
 		lib.Cuts(L, -1, func(c []int) { it.one(c) })
 	default:
-		pos := it.b.positions()
+		radius := 2
+		if quickTier && len(it.cfg.msgs) >= maxMsgs {
+			radius = 1 // quick tier, longest sequences: a narrower neighbourhood (thorough uses 2 everywhere)
+		}
+		pos := it.b.positions(radius)
 		buf := make([]int, 0, 3)
 		n := 0
 		lib.Cuts(len(pos)+1, maxCutsLong(len(it.cfg.msgs), maxMsgs), func(idx []int) {
@@ -1136,7 +1142,7 @@ type histTask struct {
 
 type histResult struct {
 	histories, streams, calls, interleavedHist, mixedKinds, violating int64
-	viol                                                            map[string]*vbest
+	viol                                                              map[string]*vbest
 }
 
 func runHistTask(alpha []streamType, t histTask) *histResult {
@@ -1438,27 +1444,28 @@ func main() {
 	}
 	bigNote := ""
 	if tier != "thorough" {
-		bigNote = " (quick: the 70000-byte message only in single-message sequences)"
+		bigNote = " (quick: the 70000-byte message only in single-message sequences; +-1 instead of +-2 for 2-message sequences)"
 	}
 	rep.Coverage["violating_cases_per_signature"] = counts
 	rep.Coverage["traces_validated_against_impl"] = rep.Counter("evaluations")
 	rep.Coverage["streams_with_all_cut_sets"] = exhaustiveStreams
 	rep.Coverage["streams_with_le3_cuts_over_boundary_positions"] = boundedStreams
 	rep.Coverage["exhaustive"] = rep.Incomplete == ""
-	rep.Coverage["rule"] = "cases = every (message sequence, per-message compressed flag, grpc-encoding, END_STREAM placement, direction, content-type, cut set); " +
-plus every multi-stream history (ordered pair of stream types on one factory x every interleaving of their calls; ordered triples one after the other); "+
+	rep.Coverage["rule"] = "cases = every (message sequence, per-message compressed flag, grpc-encoding, END_STREAM placement, direction, content-type, cut set) " +
+		"plus every multi-stream history (ordered pair of stream types on one factory x every interleaving of their calls; ordered triples one after the other); " +
 		"states = distinct stream configurations executed, transitions = Header/Data calls made on the real adapter; a case is non-trivial when the stream is gRPC, " +
 		"has at least one message and at least one DATA frame boundary falls strictly inside a message frame (inside its 5-byte prefix or inside its payload), i.e. reassembly across frames is required"
 	rep.Coverage["bounds"] = fmt.Sprintf("message sequences of length 0..%d over sizes %v x compressed flag per message; encodings %v; END_STREAM on %v (zero-message streams: %v); both directions; content-type application/grpc and application/json (sequences of <=1 message also application/grpc+proto, a gRPC content-type, and application/grpc-web, not one); "+
 		"all 2^(L-1) cut sets for streams of L<=%d bytes, for longer streams all cut sets with <=3 cuts (<=2 cuts for sequences of %d messages) over the position set {prefix start, prefix end, message end}+-2 and all multiples of 16384, plus the cut set of all multiples of 16384%s; "+
 		"multi-stream histories on one factory: %d stream types (content-type grpc/json x %d bodies x %d END_STREAM placements x 2 directions, fixed fragmentation {2, L-1}): all %d ordered pairs x all interleavings of their calls, all %d ordered triples run one after the other",
-		maxMsgs, sizes, encNames, plNames[:3], []string{plNames[plSeparate], plNames[plHeadersOnly], plNames[plTrailers]}, maxEx, maxMsgs, bigNote, len(alpha), len(alpha)/8*2/len(histPls(tier)), len(histPls(tier)), len(alpha)*len(alpha), len(alpha)*len(alpha)*len(alpha))
+		maxMsgs, sizes, encNames, plNames[:3], []string{plNames[plSeparate], plNames[plHeadersOnly], plNames[plTrailers]}, maxEx, maxMsgs, bigNote, len(alpha), len(alpha)/(4*len(histPls(tier))), len(histPls(tier)), len(alpha)*len(alpha), len(alpha)*len(alpha)*len(alpha))
 	rep.Assumptions = []string{
 		"the adapter is driven directly through the h2.Processor interface exactly as relay.processFrame does (one Header/Data call per frame, one goroutine per direction); HTTP/2 framing, flow control and hpack are out of scope (other properties)",
 		"deflate means raw DEFLATE (compress/flate), the repository's own convention; snappy sources use the framing (stream) format, the only one the adapter can decode",
 		"Message(nil,true) after the last message is accepted at the processor as the API's marker of a bare end-of-stream (DESIGN.md interpretation); it must not create a message at the destination",
 		"source payloads are produced with compression level BestSpeed so that the destination's bytes legitimately differ from the source's; equality is judged on decoded messages, flags and container",
 		"the 70 000-byte messages are compressible (about 1.6 KB on the wire when compressed): a stream is long on the wire only through its uncompressed messages, long after decompression through its compressed ones",
+		"multi-stream histories are executed by one goroutine (calls of different streams interleaved, never concurrent); data races between streams are not in scope here",
 		"DATA frames larger than the default max frame size are fed to the processor when a cut set leaves them whole (the Processor API does not bound them)",
 	}
 	rep.Finish()
